@@ -169,12 +169,25 @@ def run_case(case):
     orr = ant2.apply_response(s, direction=R @ d, polarization=R @ pol, force_real=fr_).values
     v.close("response unchanged under a joint rotation of axes, direction and polarization", float(np.max(np.abs(orr - ov))) / sc_nat, 1e-10 + 3 * th_tol, kind=kind, geom=geom)
     # ---- inputs that are neither field nor voltage are rejected
+    from pyrex.signals import EmptySignal, FunctionSignal
     for bad in ("undefined", "power", None):
-        try:
-            ant.apply_response(Signal(t, np.ones(N), bad), direction=d, polarization=pol)
-            v.check(False, "value types other than field/voltage are rejected", vtype=str(bad))
-        except ValueError:
-            v.check(True, "value types other than field/voltage are rejected")
+        for kind_, mk_ in (("Signal", lambda b_: Signal(t, np.ones(N), b_)), ("EmptySignal", lambda b_: EmptySignal(t, b_)), ("FunctionSignal", lambda b_: FunctionSignal(t, np.cos, b_))):
+            try:
+                ant.apply_response(mk_(bad), direction=d, polarization=pol)
+                v.check(False, "value types other than field/voltage are rejected", vtype=str(bad), signal_class=kind_)
+            except ValueError:
+                v.check(True, "value types other than field/voltage are rejected")
+    # ---- a function-backed signal is answered like the sampled signal with the same values, as often as it is asked, and is left alone
+    fs = FunctionSignal(t, lambda x: np.sin(2e8 * x) * np.exp(-((x - t[N // 2]) / 2e-8) ** 2), vt)
+    fvals = np.array(fs.values)
+    want_f = np.array(ant.apply_response(Signal(t, fvals, vt), direction=d, polarization=pol, force_real=fr_).values)
+    for rep_ in range(2):
+        got_f = np.array(ant.apply_response(fs, direction=d, polarization=pol, force_real=fr_).values)
+        v.close("a function-backed signal gets the response of the sampled signal with the same values, every time it is asked", float(np.max(np.abs(got_f - want_f))) / max(float(np.max(np.abs(fvals))) * max(abs(base.efficiency / (base.antenna_factor if vt == "field" else 1.0)), 1e-300), 1e-300),
+                1e-9 + 3 * th_tol, repetition=rep_, kind=kind)
+    v.close("the incoming function-backed signal is left untouched", float(np.max(np.abs(np.array(fs.values) - fvals))), 1e-15 * max(1.0, float(np.max(np.abs(fvals)))))
+    em_ = ant.apply_response(EmptySignal(t, vt), direction=d, polarization=pol, force_real=fr_)
+    v.check(np.array_equal(em_.times, t) and not np.any(em_.values) and em_.value_type == Signal.Type.voltage, "an empty signal of an accepted type gives an all-zero voltage on its grid")
     # ---- receive stores the sum of the responses to the (signal, polarization) pairs, delegation through a system
     sigs = base.signals
     n0 = len(sigs)
